@@ -23,17 +23,17 @@ CHECKS = {
    design="2/C03"),
  "C12": dict(level="exploration",
    technique="exhaustive enumeration of mouse reports (all button codes x finals x coordinate classes x introducers x parser states) plus BFS over report histories, against an independent xterm-protocol decoder",
-   text="SGR: all 256 button codes x M/m x 10x10 coordinate classes (negative, zero, inside, edge, beyond, multi-digit) x 7-bit/8-bit introducer x both button-state flags on two screen sizes; X11: all 2^24 (Cb,Cx,Cy) byte triples in the thorough tier (256x16x16 quick); histories: every sequence up to depth 4 (6 thorough) of press/release/drag/motion/wheel reports per encoding. Expected values come from a decoder written from xterm's ctlseqs, with tcell's button numbering.",
+   text="SGR: all 256 button codes x M/m x 10x10 coordinate classes (negative, zero, inside, edge, beyond, multi-digit) x 7-bit/8-bit introducer x both button-state flags on two screen sizes; X11: all 2^24 (Cb,Cx,Cy) byte triples in the thorough tier (256x16x16 quick); histories: every sequence up to depth 4 (6 thorough) of press/release/drag/motion/wheel reports per encoding; batches: every sequence of 2-3 (4) items out of SGR and X11 reports with both introducers and plain keys delivered in ONE read (each report must consume exactly its own bytes). Expected values come from a decoder written from xterm's ctlseqs, with tcell's button numbering.",
    note="Button masks the statement does not fix (wheel left/right, buttons 8-11, malformed X11 button bytes) are not compared; X11 drag reports appear in histories only while a press is outstanding.",
    design="2/C12"),
  "C02": dict(level="exploration",
-   technique="exhaustive enumeration of byte strings and token strings x read partitions through the real parser, with parser-state comparison and witness shrinking",
-   text="Per terminal description (quick: one representative per distinct input signature; thorough: every entry): all byte strings over the 27-byte branching alphabet of the parsers up to length 3-4 (thorough 4-5) from the initial state, all strings up to length 9 over a 4-6 byte alphabet (deep OSC 52 logic), all strings up to length 2 (3) from the state after every proper prefix of every token (non-initial start states), and all token strings up to length 3; each under one read, every two-chunk split and byte-wise, comparing events, unconsumed bytes and parser flags after the feeds and after the timeout (nothing may stay buffered), plus compositionality of self-delimiting tokens. Exhaustive within those bounds; witnesses are shrunk to a canonical minimal form.",
+   technique="exhaustive enumeration of byte strings and token strings x read partitions through the real parser, with parser-state comparison and witness shrinking; plus deviation-bounded schedule exploration of the real read pipeline for read partitions in flight",
+   text="Per terminal description (quick: one representative per distinct input signature; thorough: every entry): all byte strings over the 27-byte branching alphabet of the parsers up to length 3-4 (thorough 4-5) from the initial state, all strings up to length 9 over a 4-6 byte alphabet (deep OSC 52 logic), all strings up to length 2 (3) from the state after every proper prefix of every token (non-initial start states), and all token strings up to length 3; each under one read, every two-chunk split and byte-wise, comparing events, unconsumed bytes and parser flags after the feeds and after the timeout (nothing may stay buffered), plus compositionality of self-delimiting tokens. Exhaustive within those bounds; witnesses are shrunk to a canonical minimal form. A second worker group runs the real inputLoop/mainLoop under the controlled scheduler (Engine B): one key/escape-sequence stream reaches the screen through Tty.Read in 5 partitions while the application is not polling (several reads in flight between the goroutines), every schedule within 2 deviations (thorough 3); the delivered events must be those of the single-read delivery.",
    note="Uses the synchronous verif entry to collectEventsFromInput (same code path as mainLoop, no timers). The all-partitions claim rests on two-chunk splits + full state equality (induction); longer strings than the bounds are not covered.",
    design="2/C02"),
  "C11": dict(level="exploration",
-   technique="exhaustive enumeration of every encodable code point of every stateless charset x read partitions through the real parser",
-   text="For each of the 24 stateless charsets (22 registered + US-ASCII + UTF-8): every printable code point that round-trips through the codec (thorough: the whole Unicode range; quick: up to U+2FFFF for UTF-8/GB18030), as a one-character text under one read, every two-chunk split and byte-wise; plus all texts of length <=3 over 8 representatives per charset under every split, bare, inside paste brackets and with focus reports between characters, on entries with and without paste support.",
+   technique="exhaustive enumeration of every encodable code point of every stateless charset x read partitions through the real parser; plus deviation-bounded schedule exploration of the real read pipeline for split characters in flight",
+   text="For each of the 24 stateless charsets (22 registered + US-ASCII + UTF-8): every printable code point that round-trips through the codec (thorough: the whole Unicode range; quick: up to U+2FFFF for UTF-8/GB18030), as a one-character text under one read, every two-chunk split and byte-wise; plus all texts of length <=3 over 8 representatives per charset under every split, bare, inside paste brackets and with focus reports between characters, on entries with and without paste support. A second worker group runs the real inputLoop/mainLoop under the controlled scheduler: one UTF-8 text (1-, 2-, 3-byte characters) delivered through Tty.Read in 4 partitions with characters split across reads while the application is not polling, every schedule within 2 deviations (thorough 3); the delivered runes must be the typed text in order.",
    note="x/text and gdamore/encoding codecs define the charsets (trusted base); U+FFFD excluded; ISO-2022-JP and HZ excluded by the statement.",
    design="2/C11"),
  "C07": dict(level="exploration",
@@ -68,22 +68,22 @@ CHECKS = {
    design="2/C13"),
  "C09": dict(level="exploration",
    technique="exhaustive enumeration of every code point as cell content (via SetContent and Fill, 4 locales, 2 terminals, 2 screen sizes) through a strict output tokenizer, plus explicit-state draw histories with the tokenizer on every block",
-   text="Part 1 (complete): every rune from -2 to 0x110001 plus MinInt32/MaxInt32 as primary content through SetContent (every column, including the last) and through Fill, on 3x1 and 2x1 screens, in UTF-8, ISO8859-1, US-ASCII and GBK locales, on a DEC-ACS terminal (xterm-256color) and one without (sun): the reference terminal's strict tokenizer must accept every byte, no control function may take effect (bell, shift, charset, title, scroll), no C0/DEL/C1 may arrive as text, and runes that must be blanked show a blank. Part 2: BFS over draw histories (wide runes, styles, resize/corruption, mixed, and an extreme-values alphabet with long combining lists, odd colours, urls containing ; and %) with the tokenizer applied to every write block, which must end in the ground state.",
+   text="Part 1 (complete): every rune from -2 to 0x110001 plus MinInt32/MaxInt32 as primary content through SetContent (every column, including the last) and through Fill, on 3x1 and 2x1 screens, in UTF-8, ISO8859-1, US-ASCII and GBK locales, on a DEC-ACS terminal (xterm-256color) and one without (sun): the reference terminal's strict tokenizer must accept every byte, no control function may take effect (bell, shift, charset, title, scroll), no C0/DEL/C1 may arrive as text, and runes that must be blanked show a blank. Part 2: BFS over draw histories (wide runes, styles, resize/corruption, mixed, and an extreme-values alphabet with long combining lists, odd colours, urls containing ; and %) with the tokenizer applied to every write block, which must end in the ground state. Part 3: for every ECMA-48-family entry x {UTF-8, ISO8859-1} x direct colour on/off one fixed walk through every capability the screen writes (init, mouse/paste/focus modes, all styles, cursor shapes and colour, title, clipboard, beep, clear, sync, resize, suspend/resume, fini): the stream must tokenize and every character printed as text must be accounted for by cell content (anything else is residue of a capability string such as a padding specification).",
    note="The tokenizer is the reference terminal's parser (complete CSI/OSC/ESC grammar, numeric parameters only, valid charset bytes); zero-width classification follows go-runewidth as the statement says.",
    design="2/C09"),
  "C17": dict(level="exploration",
    technique="exhaustive enumeration of BMP runes x 24 charsets x 4 terminal classes through the real draw path into a charset-aware reference terminal, plus BFS over fallback registration histories",
-   text="For each of the 24 stateless charsets and four terminal classes (DEC ACS via ESC ( 0, DEC ACS via SO/SI, CP437 alternate font, no ACS) every BMP rune from U+0020 (+64 supplementary) is drawn as cell content and, when it is a zero-width mark, as a combining rune; the reference terminal decodes the written bytes in the same charset with the alternate character set interpreted through the entry's acsc pairs; the shown glyph must be the rune (if the codec round-trips it), else its ACS glyph, else the registered fallback, else '?', padded to the rune's width, the output must be valid in the charset (no raw UTF-8, no 0x1A), and CanDisplay must agree with the same decision. Fallback registration changes are explored as histories (depth 4/5) with a redraw after each change.",
+   text="For each of the 24 stateless charsets and four terminal classes (DEC ACS via ESC ( 0, DEC ACS via SO/SI, CP437 alternate font, no ACS) every BMP rune from U+0020 (+64 supplementary) is drawn as cell content and, when it is a zero-width mark, as a combining rune; the reference terminal decodes the written bytes in the same charset with the alternate character set interpreted through the entry's acsc pairs; the shown glyph must be the rune (if the codec round-trips it), else its ACS glyph, else the registered fallback, else '?', padded to the rune's width, the output must be valid in the charset (no raw UTF-8, no 0x1A), and CanDisplay must agree with the same decision. A second sweep covers every ECMA-48-family entry of the database (not only the class representatives) x {US-ASCII, ISO8859-1, KOI8-R} x every rune with a DEC special-graphics identity: the row must show exactly that glyph (or fallback / '?') and nothing else. Fallback registration changes are explored as histories (depth 4/5) with a redraw after each change.",
    note="x/text / gdamore/encoding codecs define the charsets (runes where the codec is asymmetric are skipped and counted); glyphs the description maps to the same ACS byte are treated as the same glyph; fallback strings are of the rune's width as the API requires.",
    design="2/C17"),
  "C04": dict(level="model_checking",
    technique="explicit-state search over mode-changing API histories with Suspend/Resume/Fini on the real screen; reference terminal registers and the Tty call log are the observed state",
    text="Breadth-first search with full-state keys (private screen state, reference terminal registers, application-state model) over 23 operations (EnableMouse with five flag sets, DisableMouse, paste and focus on/off, six cursor style/colour settings, SetTitle, Show/HideCursor, draw+Show, Suspend, Resume, Fini) to depth 5 on xterm-256color (thorough 10, where the frontier closes) and depth 3 on one representative per mode-signature class of the 45 family entries (thorough: every entry), each with TCELL_ALTSCREEN unset and disabled. At every Suspend and Fini the reference terminal's registers must be back to the pre-engage values and the Tty call log must satisfy the contract; at every Resume exactly the application's modes must be on again.",
-   note="Registers are those of the project's reference terminal; 30 s watchdog on Suspend/Fini; the quick tier is depth-bounded (evidence reports whether the frontier closed).",
+   note="Registers are those of the project's reference terminal; a Suspend/Fini call is declared hung only after 120 s with the whole process idle for 60 s (load cannot trigger it); the quick tier is depth-bounded (evidence reports whether the frontier closed).",
    design="2/C04"),
  "C18": dict(level="model_checking",
    technique="explicit-state BFS over draw/SetSize/cursor/lock histories on the real SimulationScreen against the shared shadow model, plus exhaustive enumeration of injectable characters per charset and of short Inject* sequences",
-   text="Draw histories (depth 4, thorough 5; states merged on GetContents + private logical buffer + model) in UTF-8, ISO8859-1 and US-ASCII over a wide-rune/style/fallback alphabet and a SetSize/cursor/lock alphabet: after every Show/Sync the reported physical cells must equal the shadow model (Runes, resolved Style, Bytes under the fallback chain), GetCursor must reflect ShowCursor, SetSize must preserve the overlap and yield exactly one EventResize with the new size. Injection: every printable BMP character (thorough: to U+2FFFF) of all 24 stateless charsets through InjectKeyBytes alone, all 2- and 3-character texts over representatives of every encoded length (multi-byte last), and all sequences up to length 3 of InjectKey/InjectMouse/InjectKeyBytes, compared with PollEvent's output order.",
+   text="Draw histories (depth 4, thorough 5; states merged on GetContents + private logical buffer + model) in UTF-8, ISO8859-1 and US-ASCII over a wide-rune/style/fallback alphabet (from the initial state and from a screen already shown once) and a SetSize/cursor/lock alphabet: after every Show/Sync the reported physical cells must equal the shadow model (Runes, resolved Style, Bytes under the fallback chain), GetCursor must reflect ShowCursor, SetSize must preserve the overlap and yield exactly one EventResize with the new size. Injection: every printable BMP character (thorough: to U+2FFFF) of all 24 stateless charsets through InjectKeyBytes alone, all 2- and 3-character texts over representatives of every encoded length (multi-byte last), and all sequences up to length 3 of InjectKey/InjectMouse/InjectKeyBytes, compared with PollEvent's output order.",
    note="Cells covered by a wide rune, locked cells and trailing padding of Bytes are not compared; the cursor reset by SetSize is followed, not judged.",
    design="2/C18"),
  "C06": dict(level="model_checking",
@@ -98,12 +98,12 @@ CHECKS = {
    design="2/C05"),
  "C10": dict(level="model_checking",
    technique="schedule exploration of all API-call pairs under the controlled scheduler in a -race build with the scheduler's hand-offs hidden from ThreadSanitizer, so every explored schedule is also checked by the happens-before race detector",
-   text="Every unordered pair (including a call with itself) of 33 Screen methods runs on two threads against a live terminfo screen with input traffic and a resize notification, and every pair of the 25 methods meaningful on SimulationScreen against a simulation screen; thorough adds all triples over 12 state-mutating calls. Each program is executed under the controlled scheduler for schedules within 1 deviation (quick: first 6 schedules per program, thorough 300). The build uses -race; the scheduler brackets its baton hand-offs with runtime.RaceDisable/RaceEnable and keeps the program's own sync operations real, so ThreadSanitizer sees exactly the program's happens-before relation in every schedule. Reports are keyed by the pair of tcell functions at the racing accesses; reports whose access frames lie in the harness or scheduler are discarded. Also checked: no panic, no lock deadlock, each Show/Sync reaches the tty as exactly one well-formed Write.",
+   text="Every unordered pair (including a call with itself) of 33 Screen methods runs on two threads against a live terminfo screen with input traffic and a resize notification (UTF-8 locale; and again, for the pairs containing a drawing or charset-dependent call, in a locale whose encoder is stateful - HZ-GB2312 - so that the shared encoder object is written by every use), and every pair of the 25 methods meaningful on SimulationScreen against a simulation screen; thorough adds all triples over 12 state-mutating calls. Each program is executed under the controlled scheduler for schedules within 1 deviation (quick: first 6 schedules per program, thorough 300). The build uses -race; the scheduler brackets its baton hand-offs with runtime.RaceDisable/RaceEnable and keeps the program's own sync operations real, so ThreadSanitizer sees exactly the program's happens-before relation in every schedule. Reports are keyed by the pair of tcell functions at the racing accesses; an access inside a library the screen calls (x/text encoder, bytes.Buffer ...) is attributed to the calling tcell function; reports whose access frames lie in the harness or scheduler are discarded. Also checked: no panic, no lock deadlock, each Show/Sync reaches the tty as exactly one well-formed Write.",
    note="ThreadSanitizer's bounded history can miss but never invents a race; race detection is happens-before based, so the schedule bound only serves to reach code paths; prepareKeys' write to a shared Terminfo entry needs two screens and is not exercised.",
    design="2/C10"),
  "C19": dict(level="model_checking",
    technique="build obligation for js/wasm + explicit-state exploration executed inside the wasm program under Node with recording JavaScript stand-ins",
-   text="The check first compiles the package for GOOS=js GOARCH=wasm from the current tree (a compile error is the violation, with the compiler output as replay). The worker then runs under Node: BFS (depth 4, thorough 5) over draw histories on the real wasm screen, rebuilding the page grid from the recorded drawCell calls and comparing it with the shadow model (text with combining runes, 24-bit colours with the xterm-like values for the 16 basic colours, attribute bits, underline style/colour) after every Show/Sync and requiring drawn cells to be changed cells; every key name of WebKeyNames and printable keys x all 16 modifier combinations; both mouse callbacks x button codes x modifier sets x all 8 enabled-flag sets; paste/focus callbacks enabled and disabled; and all 340 orders of Suspend/Resume/SetSize/Fini up to length 4, probing after each call that the screen lock was released (a held lock wedges every later call).",
+   text="The check first compiles the package for GOOS=js GOARCH=wasm from the current tree (a compile error is the violation, with the compiler output as replay). The worker then runs under Node: BFS (depth 4, thorough 5) over draw histories on the real wasm screen, rebuilding the page grid from the recorded drawCell calls and comparing it with the shadow model (text with combining runes, 24-bit colours with the xterm-like values for the 16 basic colours, attribute bits, underline style/colour) after every Show/Sync and requiring drawn cells to be changed cells; every key name of WebKeyNames and printable keys x all 16 modifier combinations; both mouse callbacks x button codes x modifier sets x all 8 enabled-flag sets; paste/focus callbacks enabled and disabled; all 340 orders of Suspend/Resume/SetSize/Fini up to length 4, probing after each call that the screen lock was released (a held lock wedges every later call); and all 4680 sequences up to length 4 (thorough 5) over EnableMouse(all|buttons)/DisableMouse/EnablePaste/DisablePaste/EnableFocus/Suspend/Resume with key, click, motion, paste and focus callbacks probed after every step at which the screen is running (mouse honoured exactly for the enabled modes, also after Resume).",
    note="tcell.js itself is replaced by recording functions installed from Go; default colours and wide runes in the last column are not compared; a call that blocks inside itself would end the worker with the Go runtime's deadlock report, which the driver turns into a violation.",
    design="2/C19"),
  # --- new checks above this line ---
